@@ -33,7 +33,6 @@ func c09tInterp(c c09tCase) (v kit.Verdict) {
 		v.Excluded = true
 		return v
 	}
-	const day = 24 * time.Hour
 	r0 := time.Now()
 	reads := make([]time.Duration, 0, c.K)
 	sinces := make([]time.Duration, 0, c.K)
@@ -64,9 +63,9 @@ func c09tInterp(c c09tCase) (v kit.Verdict) {
 		v.Classes = append(v.Classes, "spin")
 	}
 	v.NonTrivial = true
-	// the hook must not be compiled in: initTime is process start - (1y 1m 1d)
-	if back := r0.Sub(initTime); back < 393*day || back > 400*day {
-		return v.Failf("initTime is %v before now: not the untouched 'process start minus 1y1m1d' (clock hook compiled in?)", back)
+	// the clock hook of /verif (initTime rebased to 2000-01-01 minus 1y1m1d) must not be compiled in
+	if initTime.Equal(time.Date(2000, 1, 1, 0, 0, 0, 0, time.UTC).AddDate(-1, -1, -1)) {
+		return v.Failf("harness: the verif clock hook is compiled into this unit (initTime=%v); it must be built without the verif tag", initTime)
 	}
 	lo := time.Duration(r0.UnixNano()-initTime.UnixNano()) - tol
 	hi := time.Duration(r1.UnixNano()-initTime.UnixNano()) + tol
